@@ -22,6 +22,7 @@ type Clause struct {
 type LoopContract struct {
 	invariants []*Clause
 	decreases  *Clause
+	steps      []*Clause // per-iteration postconditions: checked at every back edge, prev(e) = e at the iteration's start
 }
 
 type CallClause struct {
@@ -81,7 +82,7 @@ var (
 	rePred      = regexp.MustCompile(`^pred\s+(\w+)\s*\(([^)]*)\)\s*=\s*(.*)$`)
 	reSpecFun   = regexp.MustCompile(`^spec\s+func\s+(\w+)\s*\(([^)]*)\)\s*(.+)$`)
 	reLabel     = regexp.MustCompile(`^\[([\w.\-]+)\]\s*(.*)$`)
-	reLoop      = regexp.MustCompile(`^loop\s+(\d+)\s+(invariant|decreases)\s+(.*)$`)
+	reLoop      = regexp.MustCompile(`^loop\s+(\d+)\s+(invariant|decreases|step)\s+(.*)$`)
 	reCall      = regexp.MustCompile(`^call\s+(\S+)\s+(assert|bind|assume)\s+(.*)$`)
 	reGhost     = regexp.MustCompile(`^ghost\s+(\w+)\s*=\s*(.*)$`)
 )
@@ -260,9 +261,12 @@ func (p *Program) parseContractFile(file, pkgName string) error {
 				if err != nil {
 					return err
 				}
-				if m[2] == "invariant" {
+				switch m[2] {
+				case "invariant":
 					lc.invariants = append(lc.invariants, c)
-				} else {
+				case "step":
+					lc.steps = append(lc.steps, c)
+				default:
 					lc.decreases = c
 				}
 			case "call", "send", "recv":
